@@ -175,8 +175,40 @@ pub fn err_kind(dbg: &str) -> String {
     }
 }
 
+/// Per-state cache of witness verdicts, backed by a process-wide memo keyed by the byte-identical
+/// content of the pool's tree tables (shards, cap, checkpoints, removed marks, retained
+/// checkpoints) and the chain description: `witness_at_checkpoint_id` is a deterministic function
+/// of those tables, the position and the checkpoint id, and most operations of the exploration
+/// (locks, pending transactions, proposals) do not touch them.
 #[derive(Default)]
-pub struct WitnessCache(HashMap<(NoteKey, u32), Result<(), String>>);
+pub struct WitnessCache(HashMap<(NoteKey, u32), Result<(), String>>, [Option<u128>; 3]);
+
+type WitMemo = std::sync::Mutex<HashMap<(u128, NoteKey, u32), Result<(), String>>>;
+fn wit_memo() -> &'static WitMemo {
+    static M: std::sync::OnceLock<WitMemo> = std::sync::OnceLock::new();
+    M.get_or_init(Default::default)
+}
+pub static WIT_NS: std::sync::atomic::AtomicU64 = std::sync::atomic::AtomicU64::new(0);
+pub static WIT_N: std::sync::atomic::AtomicU64 = std::sync::atomic::AtomicU64::new(0);
+
+fn tree_digest(conn: &rusqlite::Connection, pool: Pool, m: &Model) -> u128 {
+    let t = pool.prefix();
+    let mut out = format!("{:?}\n", m.chain);
+    for sql in [
+        format!("SELECT shard_index, subtree_end_height, hex(root_hash), hex(shard_data), contains_marked FROM {t}_tree_shards"),
+        format!("SELECT cap_id, hex(cap_data) FROM {t}_tree_cap"),
+        format!("SELECT * FROM {t}_tree_checkpoints"),
+        format!("SELECT * FROM {t}_tree_checkpoint_marks_removed"),
+        format!("SELECT * FROM {t}_tree_retained_checkpoints"),
+    ] {
+        for r in crate::db::query_rows(conn, &sql) {
+            out.push_str(&r);
+            out.push('\n');
+        }
+        out.push_str("--\n");
+    }
+    mc_core::key128(out.as_bytes())
+}
 
 fn witness_root(w: &mut Wallet, pool: Pool, position: u64, cm: &[u8; 32], anchor: u32) -> Result<Option<[u8; 32]>, String> {
     let id = BlockHeight::from_u32(anchor);
@@ -214,6 +246,17 @@ impl WitnessCache {
         if let Some(r) = self.0.get(&(v.key, anchor)) {
             return r.clone();
         }
+        let pi = match v.pool {
+            Pool::Sapling => 0,
+            Pool::Orchard => 1,
+            Pool::Ironwood => 2,
+        };
+        let digest = *self.1[pi].get_or_insert_with(|| tree_digest(w.db.conn(), v.pool, m));
+        if let Some(r) = wit_memo().lock().unwrap().get(&(digest, v.key, anchor)) {
+            self.0.insert((v.key, anchor), r.clone());
+            return r.clone();
+        }
+        let tw = std::time::Instant::now();
         let r = (|| {
             let pos = v.position.ok_or_else(|| format!("{} has no tree position (not mined)", env.label(v.key)))?;
             match witness_root(w, v.pool, pos, &v.cm, anchor)? {
@@ -228,6 +271,9 @@ impl WitnessCache {
                 }
             }
         })();
+        WIT_NS.fetch_add(tw.elapsed().as_nanos() as u64, std::sync::atomic::Ordering::Relaxed);
+        WIT_N.fetch_add(1, std::sync::atomic::Ordering::Relaxed);
+        wit_memo().lock().unwrap().insert((digest, v.key, anchor), r.clone());
         self.0.insert((v.key, anchor), r.clone());
         r
     }
@@ -506,7 +552,10 @@ fn check_proposal<N>(
                     return Err(format!("selected input {name} appears more than once in the proposal"));
                 }
                 if h > anchor {
-                    return Err(format!("step {si}: selected input {name} is mined at {h}, above the proposal's anchor height {anchor}"));
+                    return Err(format!("step {si}: selected input {name} is mined at {h}, above the step's anchor height {anchor} (target height {target}): it is not in the note commitment tree at the anchor, so it is not witnessable there"));
+                }
+                if h == anchor {
+                    outs.push(if bucketed { "ok:input-mined-exactly-at-bucketed-anchor" } else { "ok:input-mined-exactly-at-anchor" }.into());
                 }
                 cache.check(env, w, m, v, anchor).map_err(|e| format!("step {si}: {e}"))?;
                 if let NoteKey::U(i) = v.key {
@@ -649,7 +698,7 @@ pub fn lattice(level: usize) -> Lattice {
     let confs = [Conf::Min, Conf::Default];
     let lps = [LockPol::Exclude, LockPol::PreferUnlockedX, LockPol::PreferLockedX, LockPol::PreferUnlockedXY];
     if level >= 2 {
-        let amts = [Fixed(30_000), Fixed(100_000), Fixed(1_000_000), Fixed(1_250_000), UbMinus(MIN_FEE), UbMinus(MIN_FEE - 1), UbPlus(1)];
+        let amts = [Fixed(30_000), Fixed(100_000), Fixed(1_000_000), Fixed(2_000_000), Fixed(5_000_000), Fixed(1_250_000), UbMinus(MIN_FEE), UbMinus(MIN_FEE - 1), UbPlus(1)];
         for a in amts {
             for r in [Rcpt::Sapling, Rcpt::Unified, Rcpt::Transparent, Rcpt::Tex] {
                 for c in confs {
@@ -712,8 +761,8 @@ pub fn lattice(level: usize) -> Lattice {
         }
         Lattice {
             reqs: v,
-            describe: "thorough: propose_transfer {30k,100k,1M(canonical ZIP 318),1.25M,UB-10000,UB-9999,UB+1} x {Sapling,UA/Orchard,P2PKH,TEX} x {MIN,3/10} x {Exclude,PreferUnlocked{X},PreferLocked{X},PreferUnlocked{X,Y}} x {single,split change}; \
-                       Sapling-only spend policy for 3 amounts x 2 recipients x 2 x 2; propose_standard_transfer_to_address 7 amounts x 3 recipients x 2 policies; propose_send_max_transfer 4 recipients x 2 x 4 x {all pools,Sapling only} x {MaxSpendable,Everything}, \
+            describe: "thorough: propose_transfer {30k,100k,1M/2M/5M (canonical ZIP 318 denominations whose oldest single covering Orchard note lies before / at / after the bucketed anchor boundary),1.25M,UB-10000,UB-9999,UB+1} x {Sapling,UA/Orchard,P2PKH,TEX} x {MIN,3/10} x {Exclude,PreferUnlocked{X},PreferLocked{X},PreferUnlocked{X,Y}} x {single,split change}; \
+                       Sapling-only spend policy for 3 amounts x 2 recipients x 2 x 2; propose_standard_transfer_to_address 9 amounts x 3 recipients x 2 policies; propose_send_max_transfer 4 recipients x 2 x 4 x {all pools,Sapling only} x {MaxSpendable,Everything}, \
                        each MaxSpendable one followed by propose_transfer of exactly the send-max amount and of that amount + 1 (single and split change); \
                        propose_shielding thresholds {10k,85k,UB,UB+1} x {MIN,3/10,1/2 without zero-conf} x 4 lock policies; propose_transfer with transparent spending permitted {30k,100k,1.25M,UB-9999,UB+1} x 3 recipients x 3 policies x {Exclude,PreferLocked{X}}"
                 .into(),
@@ -726,6 +775,15 @@ pub fn lattice(level: usize) -> Lattice {
                         v.push(rq(Entry::Transfer, a, r, c, l, Chg::Single, Pools::All, false));
                     }
                 }
+            }
+        }
+        // canonical ZIP 318 crossings whose covering note is mined at / after the bucketed boundary
+        for a in [Fixed(2_000_000), Fixed(5_000_000)] {
+            for c in confs {
+                for l in lps {
+                    v.push(rq(Entry::Transfer, a, Rcpt::Unified, c, l, Chg::Single, Pools::All, false));
+                }
+                v.push(rq(Entry::Standard, a, Rcpt::Unified, c, LockPol::Exclude, Chg::Single, Pools::All, false));
             }
         }
         for a in [Fixed(30_000), Fixed(100_000)] {
@@ -780,36 +838,32 @@ pub fn lattice(level: usize) -> Lattice {
         }
         Lattice {
             reqs: v,
-            describe: "quick (pruned): propose_transfer {30k,100k,1M,UB-9999} x {Sapling,UA/Orchard} x {MIN,3/10} x 4 lock policies, single change; split change for {30k,100k} x 2 recipients x 2 x {Exclude,PreferLocked{X}}; \
+            describe: "quick (pruned): propose_transfer {30k,100k,1M,UB-9999} x {Sapling,UA/Orchard} x {MIN,3/10} x 4 lock policies, single change; canonical 2M and 5M (covering Orchard note mined at / after the bucketed anchor boundary) to UA x 2 x 4 and through propose_standard_transfer_to_address x 2; split change for {30k,100k} x 2 recipients x 2 x {Exclude,PreferLocked{X}}; \
                        P2PKH and TEX recipients for 30k x 2 x {Exclude,PreferUnlocked{X,Y}}; one Sapling-only spend policy request per confirmation policy; propose_standard_transfer_to_address 1.25M x 3 recipients x 2 and 30k to P2PKH x 2; \
                        propose_send_max_transfer 2 recipients x 2 x {Exclude,PreferUnlocked{X,Y}} MaxSpendable and x Exclude Everything, the Exclude one followed by propose_transfer of exactly that amount and of that amount + 1; \
                        propose_shielding thresholds {10k,UB+1} x {MIN,3/10,1/2 without zero-conf} x {Exclude,PreferUnlocked{X,Y}}; propose_transfer with transparent spending permitted {100k,UB-9999} to Sapling x {MIN,1/2 without zero-conf} x {Exclude,PreferLocked{X}}"
                 .into(),
         }
     } else {
-        for a in [Fixed(30_000), Fixed(100_000)] {
-            for r in [Rcpt::Sapling, Rcpt::Unified] {
-                for c in confs {
-                    v.push(rq(Entry::Transfer, a, r, c, LockPol::Exclude, Chg::Single, Pools::All, false));
-                }
-                if a == Fixed(100_000) {
-                    v.push(rq(Entry::Transfer, a, r, Conf::Min, LockPol::PreferLockedX, Chg::Single, Pools::All, false));
-                }
+        for r in [Rcpt::Sapling, Rcpt::Unified] {
+            for c in confs {
+                v.push(rq(Entry::Transfer, Fixed(100_000), r, c, LockPol::Exclude, Chg::Single, Pools::All, false));
             }
         }
-        v.push(rq(Entry::Transfer, UbMinus(MIN_FEE - 1), Rcpt::Sapling, Conf::Min, LockPol::Exclude, Chg::Single, Pools::All, false));
+        v.push(rq(Entry::Transfer, Fixed(100_000), Rcpt::Sapling, Conf::Min, LockPol::PreferLockedX, Chg::Single, Pools::All, false));
         v.push(rq(Entry::Transfer, Fixed(30_000), Rcpt::Tex, Conf::Min, LockPol::Exclude, Chg::Single, Pools::All, false));
-        for c in confs {
-            for l in [LockPol::Exclude, LockPol::PreferUnlockedXY] {
-                v.push(rq(Entry::SendMax, Fixed(0), Rcpt::Sapling, c, l, Chg::Single, Pools::All, false));
-            }
+        // canonical ZIP 318 crossings: covering note mined at (2M) / after (5M) the bucketed boundary
+        v.push(rq(Entry::Transfer, Fixed(2_000_000), Rcpt::Unified, Conf::Min, LockPol::Exclude, Chg::Single, Pools::All, false));
+        v.push(rq(Entry::Transfer, Fixed(5_000_000), Rcpt::Unified, Conf::Min, LockPol::Exclude, Chg::Single, Pools::All, false));
+        for (c, l) in [(Conf::Min, LockPol::Exclude), (Conf::Default, LockPol::Exclude), (Conf::Min, LockPol::PreferUnlockedXY)] {
+            v.push(rq(Entry::SendMax, Fixed(0), Rcpt::Sapling, c, l, Chg::Single, Pools::All, false));
         }
         v.push(rq(Entry::Shield, Fixed(10_000), Rcpt::Sapling, Conf::Min, LockPol::Exclude, Chg::Single, Pools::All, false));
         v.push(rq(Entry::Transfer, Fixed(100_000), Rcpt::Sapling, Conf::Min, LockPol::Exclude, Chg::Single, Pools::AllPlusTransparent, false));
         Lattice {
             reqs: v,
-            describe: "core: propose_transfer {30k,100k} x {Sapling,UA/Orchard} x {MIN,3/10} Exclude and 100k x 2 recipients MIN PreferLocked{X}; UB-9999 to Sapling under MIN; 30k to TEX; \
-                       propose_send_max_transfer (MaxSpendable: selects every eligible note) to Sapling x {MIN,3/10} x {Exclude,PreferUnlocked{X,Y}}; propose_shielding threshold 10k under MIN; propose_transfer 100k with transparent spending permitted"
+            describe: "core: propose_transfer 100k x {Sapling,UA/Orchard} x {MIN,3/10} Exclude, 100k to Sapling MIN PreferLocked{X}, 30k to TEX; canonical ZIP 318 crossings 2M and 5M to UA under MIN; \
+                       propose_send_max_transfer (MaxSpendable: selects every eligible note) to Sapling under (MIN,Exclude), (3/10,Exclude), (MIN,PreferUnlocked{X,Y}); propose_shielding threshold 10k under MIN; propose_transfer 100k with transparent spending permitted"
                 .into(),
         }
     }
